@@ -459,7 +459,10 @@ fn canonical_scheme(ts: &TypeScheme) -> String {
         for (k, &v) in perm.iter().enumerate() {
             names[v] = format!("\u{1}{k:03}\u{2}");
         }
-        let (qt, tvs) = ts.instantiate_for_printing(Some(names.iter().map(|s| s.as_str())));
+        // (names[v] is the name of the quantified variable number v)
+        let tvs: Vec<crate::type_variable::TypeVariable> =
+            names.iter().map(|s| crate::type_variable::TypeVariable::new(s.as_str())).collect();
+        let qt = ts.verif_instantiate_with(&tvs);
         let body = qt.inner.pretty_print().to_string();
         // order of first occurrence of the placeholders in the body
         let mut order: Vec<usize> = vec![];
